@@ -17,6 +17,7 @@ func init() {
 			"D2 (structural part; bounds are C18-D1) — primitive decoders and the plain decoder's skip arms return io.EOF before any store to the cursor. "+
 			"D3 refusals are wired — the default arm of every flag dispatch (sketch decoder, both fallback decoders, mapping.Decode, generic and paginated bin decoders) returns a non-nil error or delegates to a decoder that does; a mapping mismatch returns an error and the mapping is only assigned under the nil-or-Equals guard; every success return of the sketch decoder has passed the missing-mapping test. "+
 			"D4 bin decoders succeed only after the announced number of items: every exit of an item loop is controlled by the decoded count or returns a non-nil error. "+
+			"D5 block order of the exact variant — every path of its Encode reaches the inner sketch's Encode, and the Count block (when written) precedes it: the decoder's final refusal of 'bins without a count' then never hits a prefix cut between blocks. "+
 			"SHARED (obligations of other properties that decide clauses this property states too, re-evaluated here under their home rule ids): C19-D2/D3 (Equals of the three mappings: same-type comma-ok test and the symmetric tolerance table over gamma AND offset of the two operands). C18-D1 (the primitive decoders, unrolled completely: every byte read is preceded by its own length test, end of input is io.EOF with nothing consumed). "+
 			"NOT DECIDED: panics from absurd-but-well-formed input (an index of 2^62 handed to a dense store); enumeration of truncation points is replaced by the every-path argument.",
 		"one obligation per (call site × path class) for D1, per decoder arm for D3, per loop exit for D4; non-trivial = required a path or dominance evaluation",
@@ -63,6 +64,7 @@ func runC08(c *Ctx) {
 	// the exact variant's decoder: each statistics arm folds only after its primitive decoded; the final
 	// "bins without statistics" refusal is exactly count == 0 && !empty (a cut between blocks stays a success)
 	c.shared(func() { c10Decode(c, a) }, func(o *Obligation) bool { return true })
+	c08ExactOrder(c, a)
 }
 
 // moduleErrCallee: the callee (static or interface method) is declared in the module and returns an error.
@@ -751,4 +753,44 @@ func isCountDerived(tc *TermCtx, t *Term, depth int) bool {
 		return base
 	}
 	return false
+}
+
+// c08ExactOrder (D5): the exact variant's decoder refuses "bins without statistics" (count == 0 && !empty) when the
+// input ends; a prefix cut between blocks therefore decodes only if the Count block comes BEFORE every block that
+// makes the sketch non-empty. On every path of the exact Encode that writes a Count block, that write precedes
+// the inner sketch's Encode; every path reaches the inner Encode.
+func c08ExactOrder(c *Ctx, a *sketchAnchors) {
+	const rule = "C08-D5"
+	f := c.P.DeclaredMethod(a.Exact, "Encode")
+	if !c.mustFunc(rule, f, "(*Exact).Encode") {
+		return
+	}
+	ps, _ := exec(c, f, nil, 1)
+	bad := ""
+	nCount := 0
+	for _, p := range ps {
+		innerSeq, countSeq := -1, -1
+		for _, e := range p.Calls() {
+			t := e.Call
+			if isMethodCall(t, "Encode") && len(t.Args) == 3 && (isRecvField(t.Args[0].unver(), a.innerFld) || t.Args[0].isRecv()) && strings.Contains(t.Sym, "DDSketch)") && !strings.Contains(t.Sym, "WithExact") {
+				if innerSeq < 0 {
+					innerSeq = e.Seq
+				}
+			}
+			if t.Op == "call" && strings.HasSuffix(t.Sym, "encoding.EncodeFlag") && len(t.Args) == 2 && t.Args[1].Op == "global" && strings.HasSuffix(t.Args[1].Sym, ".FlagCount") {
+				countSeq = e.Seq
+			}
+		}
+		if innerSeq < 0 {
+			bad = "a path does not encode the inner sketch: [" + p.String() + "]"
+			continue
+		}
+		if countSeq >= 0 {
+			nCount++
+			if countSeq > innerSeq {
+				bad = "the Count block is written after the inner sketch's blocks: a prefix cut between blocks holds bins without a count and is refused by the decoder's final check"
+			}
+		}
+	}
+	c.R.check(bad == "" && nCount > 0, rule, shortFn(f)+"/count-block-first", shortFn(f), c.fpos(f), "every path encodes the inner sketch, and the Count block (when written) precedes it", firstNonEmpty(bad, fmt.Sprintf("%d path(s), %d writing a Count block", len(ps), nCount)))
 }
